@@ -163,6 +163,26 @@ def leg_b(rep, tier, seed):
             evs += c01.filter_events(len(evs) + 1, obj, be["proj"], doc)
         except Unencodable:
             continue
+    # the same conditions over a caller-owned list of (value, path) pairs with the public data_has_paths option: the
+    # caller's list and its pairs are inputs like any other
+    npairs = 0
+    for _ in range(300 * n):
+        t = gen.tree_recipe(rng, depth=rng.randint(0, 2), kinds=gen.VALUE_KINDS, null_p=0.05)
+        out0, cnd = outcome_of(lambda: gen.build_tree(t))
+        if cnd is None:
+            continue
+        vals = [gen.value(rng, 1) for _ in range(rng.randint(1, 4))]
+        pairs = [(v, tuple(rng.choice(["a", 0, 1]) for _ in range(rng.randint(0, 2)))) for v in vals]
+        if rng.random() < 0.3:
+            pairs = [list(p) for p in pairs]
+        before = doc_snap(pairs)
+        with watch(objs=[cnd], docs=[]) as w:
+            outcome_of(lambda: cnd.filter(pairs, data_has_paths=True))
+        npairs += 1
+        if doc_snap(pairs) != before or w.writes or not w.objs_unchanged:
+            rep.reject({"clause": "ReadOnly", "leg": "B", "op": "filter_pairs", "writes": w.writes},
+                       {"event": {"op": "filter_pairs", "tree": to_lit(t), "pairs": to_lit(pairs), "writes": w.writes}})
+    total += npairs
     t_evs, _ = c02.shared_tree_events(rng, 300 * n)
     for e in t_evs:
         e["id"] = len(evs) + 1
